@@ -148,7 +148,7 @@ impl Prop for C01 {
             len: long_token_inputs(tier.pick(14, 17)).len() as u64,
             chunk: 200,
             timeout: Duration::from_secs(600),
-            what: "one long token per input: 33 shapes (digit runs, fractions with many zeros, names, strings, operator-character runs, whitespace runs, separators) at every length 1..70 and at 2^k-1, 2^k, 2^k+1".into(),
+            what: "one long token per input: 38 shapes (digit runs, fractions with many zeros, names, strings, operator-character runs, whitespace runs, separators) at every length 1..70 and at 2^k-1, 2^k, 2^k+1".into(),
         });
         let sw = sweeps(tier);
         Plan {
